@@ -73,8 +73,15 @@ func (f *Func) Init(raw string) error {
 	if f.Complete, err = url.PathUnescape(raw); err != nil {
 		return fmt.Errorf("bad function reference: %w", err)
 	}
-	// Update the index in the unescaped string.
-	endPkg += len(f.Complete) - len(raw)
+	// Update the index in the unescaped string. Only the escape sequences
+	// located before the dot shift it.
+	if endPkg > 0 {
+		pkg, err := url.PathUnescape(raw[:endPkg])
+		if err != nil {
+			return fmt.Errorf("bad function reference: %w", err)
+		}
+		endPkg = len(pkg)
+	}
 	if endPkg != -1 {
 		f.ImportPath = f.Complete[:endPkg]
 	}
